@@ -1,6 +1,7 @@
 import H264.Rbsp
 import H264.RefNal
 import H264.Bits
+import H264.Fast
 /-! From a (chunked, possibly partial) NAL to the bit source the syntax parsers see.
 
 `bitstream-io` pulls bytes out of `rbsp::ByteReader` one `read` at a time and never retries after an error, so
@@ -18,6 +19,32 @@ def drainGo : Nat → BR → List UInt8 → List UInt8 × IoKind
 
 /-- bytes delivered by repeated `read(1)` until the first error (`wouldBlock` / `invalidData`) or end (`eof`) -/
 def drain (r : BR) : List UInt8 × IoKind := drainGo (r.inner.rest.length + 2) r []
+
+
+def drainGoFast : Nat → BR → List UInt8 → List UInt8 × IoKind
+  | 0, _, ar => (ar.reverse, .eof)
+  | fuel+1, r, ar =>
+    match Rbsp.read r 1 with
+    | (_, .error k) => (ar.reverse, k)
+    | (r', .ok bs) => if bs = [] then (ar.reverse, .eof) else drainGoFast fuel r' (bs.reverse ++ ar)
+
+theorem drainGoFast_eq (fuel : Nat) (r : BR) (ar : List UInt8) :
+    drainGoFast fuel r ar = drainGo fuel r ar.reverse := by
+  induction fuel generalizing r ar with
+  | zero => rfl
+  | succ f ih =>
+    unfold drainGoFast drainGo
+    split
+    · rfl
+    · split
+      · rfl
+      · rw [ih]; simp
+
+def drainFast (r : BR) : List UInt8 × IoKind := drainGoFast (r.inner.rest.length + 2) r []
+
+@[csimp] theorem drain_eq_fast : @drain = @drainFast := by
+  funext r; unfold drain drainFast; rw [drainGoFast_eq]; rfl
+
 
 def mkChunked (chunks : List (List UInt8)) (complete : Bool) : Chunked :=
   match chunks with
